@@ -535,7 +535,7 @@ add("ApplicationTools.range-vector-readers", {"1", "9", ",", "1:3", "9:1", "(", 
       size_t n = d->getNumberOfCategories(); use(n);
       for (size_t i = 0; i < n && i < 4; ++i) { use(d->getCategory(i)); use(d->getProbability(i)); }
     }, true);
-    add("readDiscreteDistribution.compound", {"Constant(", "Mixture(", "Invariant(", "Gamma(n=2)", "value=1", "value=x", "value=-1", "probas=(1)", "probas=(0.5,0.5)", "probas=()", "dist=", "dist1=", "dist2=", "p=2", ")"},
+    add("readDiscreteDistribution.compound", {"Constant(", "Mixture(", "Invariant(", "Gamma(n=2)", "value=1", "value=x", "value=-1", "probas=(1)", "probas=(0.5,0.5)", "probas=()", "probas=", "probas=x", "dist=", "dist1=", "dist2=", "p=2", ")"},
         {"parseArguments=1", "parseArguments=0"}, [](const string& s, int o, vf::Case& c) {
       BppODiscreteDistributionFormat rd(false);
       S(c, "BppODiscreteDistributionFormat::readDiscreteDistribution");
@@ -570,7 +570,7 @@ add("ApplicationTools.range-vector-readers", {"1", "9", ",", "1:3", "9:1", "(", 
   add("NumCalcApplicationTools.getVector", {"s", "e", "q", "(", "1", ",", "=", ")"}, {"-"}, [](const string& s, int, vf::Case& c) {
     S(c, "NumCalcApplicationTools::getVector"); use(NumCalcApplicationTools::getVector(s));
   }, true);
-  add("NumCalcApplicationTools.getVector.words", {"seq(", "seq(from=0,to=1,", "seq(from=2,to=1,", "from=0", "to=x", "step=1", "step=0.5", "step=0", "step=-1", "size=2", "size=0", "size=-1", "scale=log", "scale=z", ",", ")"}, {"-"}, [](const string& s, int, vf::Case& c) {
+  add("NumCalcApplicationTools.getVector.words", {"seq(", "seq(from=0,to=1,", "seq(from=2,to=1,", "seq(from=1e16,to=10000000000000004,", "from=0", "to=x", "step=1", "step=0.5", "step=0", "step=-1", "size=2", "size=0", "size=-1", "scale=log", "scale=z", ",", ")"}, {"-"}, [](const string& s, int, vf::Case& c) {
     S(c, "NumCalcApplicationTools::getVector"); use(NumCalcApplicationTools::getVector(s));
   }, true);
 
